@@ -1114,9 +1114,309 @@ def directed_channel_cases():
     return cases
 
 
+# ---------------------------------------------------------------------------------------------------------------------
+# round 4: frame-pushing nodes between a rebinding mapping and the reader (D5), histories of create_program calls on
+# the same template object with hash-colliding values (H1), loop indices that run through hash-colliding values (H2),
+# the very same object in two places reached with colliding scopes (D7)
+
+def _seq(*subs, **kw):
+    return dict({'k': 'seq', 'subs': list(subs), 'cs': [], 'ms': []}, **kw)
+
+
+def py_channels(n):
+    """defined channels of the user-level tree"""
+    k = n['k']
+    if k in ('table', 'point', 'func', 'const'):
+        return set(n['ch'])
+    s = set()
+    for q in children(n):
+        s |= py_channels(q)
+    if k == 'par':
+        s |= {c for c, _ in par_ow(n)}
+    if k == 'map' and n.get('ren'):
+        s = {n['ren'].get(c, c) for c in s}
+    return s
+
+
+def _const_like(e, t):
+    """a constant template on the channels of t"""
+    chs = sorted(py_channels(t))
+    return {'k': 'const', 'ch': chs, 'reads': [e] * len(chs), 'dur': C(2), 'cs': [], 'ms': []}
+
+
+def _rep(t, count=None):
+    return {'k': 'rep', 'body': t, 'count': count or C(2), 'cs': [], 'ms': []}
+
+
+def _for(t, idx, a, b, st=None, use_idx=True):
+    body = _seq(t, _const_like(V(idx), t)) if use_idx else t
+    return {'k': 'for', 'body': body, 'idx': idx, 'a': a, 'b': b, 'st': st or C(1), 'cs': [], 'ms': []}
+
+
+# every node kind that opens a new frame of the program builder (sequence, repetition, iteration), that instantiates
+# its body with a builder of its own (time reversal, to_single_waveform subprogram) or that merely hands the scope on
+# (parallel channel, arithmetic), alone and stacked
+D_INTERPOSERS = [
+    ('rep', lambda t: _rep(t)),
+    ('seq', lambda t: _seq(_const(C(1)), t)),
+    ('for', lambda t: _for(t, 'j7', C(0), C(2))),
+    ('rev', lambda t: {'k': 'rev', 'inner': t}),
+    ('tsw', lambda t: _seq(t, tsw=True)),
+    ('par', lambda t: {'k': 'par', 'inner': t, 'ow': [['B', C(1)]]}),
+    ('ari', lambda t: {'k': 'ari', 'inner': t, 'op': '+', 'side': 'r', 'sa': [V('p3')], 'sc': []}),
+    ('rep_p', lambda t: _rep(t, V('p3'))),
+    ('seq>rep', lambda t: _seq(_rep(t))),
+    ('rep>seq', lambda t: _rep(_seq(t, _const(C(1))))),
+    ('rep>rep', lambda t: _rep(_rep(t))),
+    ('for>rep', lambda t: _for(_rep(t), 'j7', C(0), C(2))),
+    ('rep>for', lambda t: _rep(_for(t, 'j7', C(0), C(2)))),
+    ('rev>rep', lambda t: {'k': 'rev', 'inner': _rep(t)}),
+    ('rep>rev', lambda t: _rep({'k': 'rev', 'inner': t})),
+    ('tsw>rep', lambda t: _seq(_rep(t), tsw=True)),
+    ('rep>tsw', lambda t: _rep(_seq(t, tsw=True))),
+]
+D5_CONTEXTS = ['loopidx', 'loop2', 'idxshadow', 'top']
+
+
+def d5_context(cname, mm, x, y, below):
+    """the rebinding mapping M (parameter mapping mm over x, y) in position cname; `below` = interposer(target)"""
+    keep_y = [_const_like(V(y), below)] if y in mm else []
+    inner = _seq(below, *keep_y) if keep_y else below
+    M = _tagged({'k': 'map', 'inner': inner, 'm': mm, 'cs': []}, 'M')
+    if cname == 'loopidx':          # for x: M{x -> f(x)} > I > T
+        return {'k': 'for', 'body': M, 'idx': x, 'a': C(0), 'b': V('p1'), 'st': C(1), 'cs': [], 'ms': []}
+    if cname == 'loop2':            # for x: for j8: M{x -> f(x)} > I > T     (the innermost iteration is not x)
+        return {'k': 'for', 'body': _for(M, 'j8', C(0), C(2)), 'idx': x, 'a': C(0), 'b': V('p1'), 'st': C(1),
+                'cs': [], 'ms': []}
+    if cname == 'idxshadow':        # M{x -> f(x)} > for x in range(0, x, 2) > I > T   (T sees the index)
+        M['inner'] = {'k': 'for', 'body': inner, 'idx': x, 'a': C(0), 'b': V(x), 'st': C(2), 'cs': [], 'ms': []}
+        return M
+    if cname == 'top':
+        return M
+    raise ValueError(cname)
+
+
+def directed_frame_cases(full):
+    """D5: ForLoopPT(x) > MappingPT{x -> f(x)} > frame-pushing node(s) > node constraining x: the constrained node sees
+    the mapped value, not the loop index (and not the outer value).  The constraint sits on the target and separates
+    the value the target must see from the one it would see if the mapping were the identity"""
+    cases = []
+    nf = len(d_fkinds('x', 'y'))
+    for ci, cname in enumerate(D5_CONTEXTS):
+        for ii, (iname, wrap) in enumerate(D_INTERPOSERS):
+            if full:
+                pairs = [(fi, ti) for fi in range(nf) for ti in range(len(D_TARGETS))]
+            elif cname == 'loopidx':
+                pairs = [((4 * ii + j) % nf, (4 * ii + j + ii // 2) % len(D_TARGETS)) for j in range(4)]
+                if iname == 'rep':
+                    pairs.append((6, 2))        # the seeded shape: {i: k} above a repetition above a function atom
+            else:
+                pairs = [((ii + 3 * ci) % nf, (ii + ci) % len(D_TARGETS))]
+            for fi, ti in dict.fromkeys(pairs):
+                x, y = ('p0', 'p2') if cname in ('top', 'idxshadow') else ('i1', 'p2')
+                fname, mm = d_fkinds(x, y)[fi]
+                ident = {k: V(k) for k in mm}
+                tk = D_TARGETS[ti]
+                tree = d5_context(cname, dict(mm), x, y, wrap(d_target(tk, x)))
+                alt = d5_context(cname, ident, x, y, wrap(d_target(tk, x)))
+                if not (sympy_ok(strip_tags(tree)) and constructible(strip_tags(tree))):
+                    continue
+                A, B = _values_at(tree, 'T', x, D_REF), _values_at(alt, 'T', x, D_REF)
+                for truth in (True, False):
+                    cands = separating(x, A, B, truth)
+                    if not cands:
+                        continue
+                    t2 = copy.deepcopy(tree)
+                    node = find_tag(t2, 'T')
+                    if 'cs' not in node or node['k'] == 'const':
+                        continue
+                    node['cs'] = [copy.deepcopy(cands[(fi + ti + ii + (0 if truth else 1)) % len(cands)])]
+                    if sympy_ok(strip_tags(t2)):
+                        cases.append(d_case(t2, D_REF, 'D5:%s:%s:%s:%s:%s' % (cname, iname, fname, tk,
+                                                                              'accept' if truth else 'reject')))
+    return cases
+
+
+HM = 2 ** 61 - 1          # hash(n) == hash(n + HM) for Python ints; hash(-1) == hash(-2) == -2
+# (satisfying value, violating value with the same Python hash, value type)
+H_PAIRS = [(-1, -2, 'int'), (-2, -1, 'int'), (-1, -2, 'float'), (-1, -2, 'np'), (-2, -1, 'np'), (-1, -2 - HM, 'int'),
+           (5, 5 + HM, 'int'), (0, -HM, 'int'), (-2, -1, 'float'), (1, 1 - HM, 'np')]
+H_SHAPES = ['gb', 'gbg', 'bgb', 'mgb', 'ggb']        # g = satisfying, b = violating, m = the constrained name missing
+H_POSITIONS = ['top', 'seq', 'rep', 'loop', 'map', 'maptop']
+
+
+def _vtag(v):
+    k = round(v / HM)
+    return str(v) if k == 0 else '%d%+dH' % (v - k * HM, k)
+
+
+def h_constraint(h, good, bad, j):
+    if bad < good:
+        return [{'op': '>', 'l': V(h), 'r': C(bad)}, {'op': '>=', 'l': V(h), 'r': C(good)}][j % 2]
+    return [{'op': '<', 'l': V(h), 'r': C(bad)}, {'op': '<=', 'l': V(h), 'r': C(good)}][j % 2]
+
+
+def h_tree(pos, tk, h, good, bad, j):
+    """target kind tk (reads p0) constrained on h, in position pos; returns (tree, shift): the assignment gives h the
+    value v - shift so that the target sees v"""
+    t = d_target(tk, 'p0')
+    shift = 0
+    if pos == 'map':            # the colliding values are the *mapped* ones
+        shift = 1
+    node = find_tag(t, 'T')
+    node['cs'] = [h_constraint(h, good, bad, j)]
+    if pos == 'maptop':         # the colliding values are the outer ones: the target sees v + 1
+        node['cs'] = [h_constraint(h, good + 1, bad + 1, j)]
+    if pos == 'top':
+        return t, shift
+    if pos == 'seq':
+        return _seq(_const(C(1)), t), shift
+    if pos == 'rep':
+        return _rep(t), shift
+    if pos == 'loop':
+        return _for(t, 'j8', C(0), C(2)), shift
+    return {'k': 'map', 'inner': t, 'm': {h: ['+', V(h), C(1)]}, 'cs': []}, shift
+
+
+def h_case(tree, ref, steps, tag, drop=()):
+    c = d_case(tree, ref, tag, kind='history', drop=drop)
+    c['extra'] = {}
+    c['hist'] = steps
+    return c
+
+
+def directed_history_cases(full):
+    """H1: create_program called repeatedly on one template object; consecutive assignments differ only in a value
+    with the same Python hash (-1 / -2 as int, float, numpy.int64; n / n +- (2**61 - 1)), one satisfies the
+    constraint of the target and the other violates it.  Every call is judged on its own"""
+    cases = []
+    h = 'p4'
+    ref = {'p0': F(1), 'p4': F(0)}
+    for pi, pos in enumerate(H_POSITIONS):
+        for ti, tk in enumerate(D_TARGETS):
+            if full:
+                combos = [(a, b) for a in range(len(H_PAIRS)) for b in range(len(H_SHAPES))]
+            else:
+                combos = [((ti + 3 * pi) % len(H_PAIRS), (ti + pi) % len(H_SHAPES))]
+                if pos in ('top', 'loop'):
+                    combos.append((ti % 2, 0))
+            for a, b in dict.fromkeys(combos):
+                good, bad, vt = H_PAIRS[a]
+                tree, shift = h_tree(pos, tk, h, good, bad, a + b + ti)
+                if not (sympy_ok(strip_tags(tree)) and constructible(strip_tags(tree))):
+                    continue
+                steps = []
+                for ch in H_SHAPES[b]:
+                    if ch == 'm':
+                        steps.append({'del': [h], 'vt': vt})
+                    else:
+                        steps.append({'set': {h: str(F((good if ch == 'g' else bad) - shift))}, 'vt': vt})
+                cases.append(h_case(tree, ref, steps, 'H1:%s:%s:%s,%s/%s:%s' % (pos, tk, _vtag(good), _vtag(bad), vt,
+                                                                              H_SHAPES[b])))
+    # the constrained name is also the one the waveform is built from (the seeded shape: RepetitionPT(a*t) 'a > -2')
+    for ti, tk in enumerate(D_TARGETS):
+        for a in (range(5) if full else [ti % 5]):
+            good, bad, vt = H_PAIRS[a]
+            t = d_target(tk, 'p0')
+            find_tag(t, 'T')['cs'] = [h_constraint('p0', good, bad, ti)]
+            steps = [{'set': {'p0': str(F(v))}, 'vt': vt} for v in (good, bad, good)]
+            cases.append(h_case(t, {'p0': F(1)}, steps, 'H1:self:%s:%d,%d/%s' % (tk, good, bad, vt)))
+    # state left behind by a failed call: a declared name missing / a violated constraint / a malformed count first
+    for ti, tk in enumerate(D_TARGETS):
+        t = _rep(d_target(tk, 'p0'), V('p1'))
+        find_tag(t, 'T')['cs'] = [{'op': '<', 'l': V('p0'), 'r': C(3)}]
+        steps = [{'del': ['p0']}, {'set': {}}, {'set': {'p0': '5'}}, {'set': {'p1': '1/2'}}, {'set': {'p1': '0'}}, {'set': {}},
+                 {'del': ['p1']}, {'set': {}}]
+        if not full:
+            steps = steps[2 * (ti % 3):2 * (ti % 3) + 4]
+        cases.append(h_case(t, {'p0': F(1), 'p1': F(2)}, steps, 'H1:after_failure:%s' % tk))
+    return cases
+
+
+H_RANGES = [((0, -3, -1), -2), ((-2, 0, 1), -1), ((-1, -3, -1), -2), ((5, 5 + 2 * HM, HM), 5 + HM),
+            ((-2, 1, 1), -1), ((1, -3, -1), -2)]
+H_BETWEEN = ['none', 'map', 'rep', 'mapself', 'seq']
+
+
+def directed_hash_loop_cases(full):
+    """H2: one call, a loop whose index runs through values with equal Python hashes; the constrained node in the body
+    is the same object in every iteration and must be validated in every iteration: the constraint fails exactly at
+    the colliding value (after the iteration with its twin has passed) / holds everywhere"""
+    cases = []
+    ref = {'p0': F(1)}
+    for ti, tk in enumerate(D_TARGETS):
+        for ri, ((a, b, st), bad) in enumerate(H_RANGES):
+            for bi, bname in enumerate(H_BETWEEN):
+                if not full and bi != (ti + ri) % len(H_BETWEEN):
+                    continue
+                vals = list(range(a, b, st))
+                prev = vals[vals.index(bad) - 1]
+                for accept in ((False, True) if (full or ri == ti % len(H_RANGES)) else (False,)):
+                    x = 'i1'
+                    t = d_target(tk, x)
+                    lim = bad if not accept else (min(vals) - 1 if bad < prev else max(vals) + 1)
+                    c = ({'op': '>', 'l': V(x), 'r': C(lim)} if bad < prev else {'op': '<', 'l': V(x), 'r': C(lim)})
+                    find_tag(t, 'T')['cs'] = [c]
+                    body = t
+                    if bname == 'map':          # the target reads a mapped name that carries the index
+                        t = d_target(tk, 'q1')
+                        c = copy.deepcopy(c)
+                        c['l'] = V('q1')
+                        find_tag(t, 'T')['cs'] = [c]
+                        body = {'k': 'map', 'inner': t, 'm': {'q1': V(x)}, 'cs': []}
+                    elif bname == 'mapself':
+                        body = {'k': 'map', 'inner': t, 'm': {x: ['+', V(x), C(0)]}, 'cs': []}
+                    elif bname == 'rep':
+                        body = _rep(t)
+                    elif bname == 'seq':
+                        body = _seq(t, _const(C(1)))
+                    tree = {'k': 'for', 'body': body, 'idx': x, 'a': C(a), 'b': C(b), 'st': C(st), 'cs': [], 'ms': []}
+                    if bname == 'mapself':
+                        body['m'] = {x: V(x)}
+                    if not (sympy_ok(strip_tags(tree)) and constructible(strip_tags(tree))):
+                        continue
+                    cases.append(d_case(tree, ref, 'H2:%s:%d:%s:%s' % (tk, ri, bname, 'accept' if accept else 'reject')))
+    return cases
+
+
+def directed_alias_cases(full):
+    """D7: the very same template object in two places of one tree: twice among the direct children of a sequence, and
+    below two mappings that give it hash-colliding values (satisfying first, violating second and the converse)"""
+    cases = []
+    ref = {'p0': F(1), 'p1': F(2)}
+    for ti, tk in enumerate(D_TARGETS):
+        for oi, (first, second) in enumerate([(-1, -2), (-2, -1), (-1, -1)]):
+            for accept in (False, True):
+                if not full and (accept and oi != ti % 3):
+                    continue
+                t = d_target(tk, 'q1')
+                t['oid'] = 1
+                lo, hi = min(first, second), max(first, second)
+                if second <= first:
+                    c = {'op': '>', 'l': V('q1'), 'r': C(lo - 1 if accept else lo)}
+                else:
+                    c = {'op': '<', 'l': V('q1'), 'r': C(hi + 1 if accept else hi)}
+                find_tag(t, 'T')['cs'] = [c]
+                mk = lambda v: {'k': 'map', 'inner': copy.deepcopy(t), 'm': {'q1': ['-', V('p0'), C(1 - v)]}, 'cs': []}
+                tree = _seq(mk(first), mk(second))
+                if sympy_ok(strip_tags(tree)) and constructible(strip_tags(tree)):
+                    cases.append(d_case(tree, ref, 'D7:two_scopes:%s:%d,%d:%s' % (tk, first, second,
+                                                                                 'accept' if accept else 'reject')))
+        # the same object twice among the direct children; a history on top (hash-colliding values of p0)
+        t = d_target(tk, 'p0')
+        t['oid'] = 2
+        find_tag(t, 'T')['cs'] = [{'op': '>', 'l': V('p0'), 'r': C(-2)}]
+        tree = _seq(copy.deepcopy(t), copy.deepcopy(t), _rep(copy.deepcopy(t)))
+        cases.append(d_case(tree, {'p0': F(-1)}, 'D7:twice:%s' % tk))
+        cases.append(h_case(tree, {'p0': F(-1)}, [{'set': {}}, {'set': {'p0': '-2'}}, {'set': {}}], 'D7:twice:%s:history' % tk))
+    return cases
+
+
 def directed_cases(tier):
-    return (directed_mapping_cases(tier == 'thorough') + directed_loop_cases() + directed_extra_cases()
-            + directed_channel_cases())
+    full = tier == 'thorough'
+    return (directed_mapping_cases(full) + directed_loop_cases() + directed_extra_cases()
+            + directed_channel_cases() + directed_frame_cases(full) + directed_history_cases(full)
+            + directed_hash_loop_cases(full) + directed_alias_cases(full))
 
 
 def gen_cases(rng, tier, ctx, every_constraint=False):
@@ -1161,21 +1461,32 @@ def gen_cases(rng, tier, ctx, every_constraint=False):
 # ---------------------------------------------------------------------------------------------------------------------
 # the real objects
 
-def build_pt(n, tsw=None):
-    """the real template objects; templates flagged 'tsw' are collected in the list tsw (to_single_waveform)"""
-    pt = _build_pt(n, tsw)
+def build_pt(n, tsw=None, memo=None):
+    """the real template objects; templates flagged 'tsw' are collected in the list tsw (to_single_waveform); nodes
+    that carry the same 'oid' and have identical content are built once: the very same Python object then appears in
+    several places of the tree (aliasing; the model sees two copies)"""
+    if memo is None:
+        memo = {}
+    key = None
+    if n.get('oid') is not None:
+        key = (n['oid'], json.dumps(n, sort_keys=True))
+        if key in memo:
+            return memo[key]
+    pt = _build_pt(n, tsw, memo)
     if tsw is not None and n.get('tsw'):
         tsw.append(pt)
+    if key is not None:
+        memo[key] = pt
     return pt
 
 
-def _build_pt(n, tsw):
+def _build_pt(n, tsw, memo):
     from qupulse.pulses import (TablePT, PointPT, FunctionPT, AtomicMultiChannelPT, ParallelChannelPT, SequencePT,
                                 RepetitionPT, ForLoopPT, MappingPT, ConstantPT)
     from qupulse.pulses.arithmetic_pulse_template import ArithmeticPulseTemplate, ArithmeticAtomicPulseTemplate
     from qupulse.pulses.time_reversal_pulse_template import TimeReversalPulseTemplate
     k = n['k']
-    build_pt_ = lambda q: build_pt(q, tsw)
+    build_pt_ = lambda q: build_pt(q, tsw, memo)
     cs = [cstr(c) for c in n.get('cs', [])]
     ms = [('m', estr(b), estr(l)) for b, l in n.get('ms', [])]
     if k == 'table':
@@ -1221,8 +1532,17 @@ def _build_pt(n, tsw):
     raise ValueError(k)
 
 
-def py_value(q):
+def py_value(q, vt='int'):
+    """the Python object passed as parameter value: int where possible (default), float, or a numpy scalar
+    (hash(-1) == hash(-2) holds for all three)"""
     q = F(q)
+    if vt == 'float':
+        return float(q)
+    if vt == 'np':
+        import numpy as np
+        if q.denominator == 1:
+            return np.int64(int(q)) if abs(q) < 2 ** 62 else int(q)
+        return np.float64(float(q))
     return int(q) if q.denominator == 1 else float(q)
 
 
@@ -1252,7 +1572,7 @@ def fp_equal(a, b):
     return type(a) == type(b) and a == b
 
 
-def _create(pt, values, drop, tsw=(), keep=None):
+def _create(pt, values, drop, tsw=(), keep=None, vt='int'):
     from qupulse.pulses.parameters import ParameterConstraintViolation, ParameterNotProvidedException
     from qupulse.expressions import ExpressionVariableMissingException
     kw = {}
@@ -1262,7 +1582,7 @@ def _create(pt, values, drop, tsw=(), keep=None):
         kw['to_single_waveform'] = set(tsw)
     try:
         with vlib.time_limit(20):
-            prog = pt.create_program(parameters={k: py_value(v) for k, v in values.items()}, **kw)
+            prog = pt.create_program(parameters={k: py_value(v, vt) for k, v in values.items()}, **kw)
             if prog is not None and keep is not None:
                 try:
                     keep.append(fingerprint(prog))
@@ -1294,6 +1614,8 @@ def run_impl(case):
         except Exception as e:
             return {'crash': 'construction: %s: %s' % (type(e).__name__, str(e)[:200])}
         ref = case['ref']
+        if case['kind'] == 'history':
+            return run_history(case, pt, names, tsw)
         values = {x: ref.get(x, '1') for x in names}
         if case['kind'] == 'removed' and names:
             del values[names[case['rm'] % len(names)]]
@@ -1313,6 +1635,31 @@ def run_impl(case):
         # (b): two programs are "the same result" iff they play the same (only meaningful when both exist)
         same = fp_equal(fp1, fp2) if (out == 'program' and out2 == 'program') else True
         return {'names': names, 'values': values, 'out': out, 'values2': values2, 'out2': out2, 'same': same}
+
+
+def run_history(case, pt, names, tsw):
+    """create_program called once per step on the *same* template object, in order.  A step is {'set': {name: value},
+    'del': [names], 'vt': int|float|np}: the reference assignment of the declared names, updated / reduced"""
+    drop = drop_list(case)
+    steps, fps = [], []
+    for st in case['hist']:
+        values = {x: case['ref'].get(x, '1') for x in names}
+        values.update(st.get('set', {}))
+        for x in st.get('del', []):
+            values.pop(x, None)
+        fp = []
+        out = _create(pt, values, drop, tsw, fp, vt=st.get('vt', 'int'))
+        if out == 'hang':
+            return {'hang': True}
+        steps.append({'values': values, 'out': out})
+        fps.append(fp)
+    same = True
+    for i in range(len(steps)):
+        for j in range(i + 1, len(steps)):
+            if (steps[i]['out'] == steps[j]['out'] == 'program'
+                    and {k: F(v) for k, v in steps[i]['values'].items()} == {k: F(v) for k, v in steps[j]['values'].items()}):
+                same = same and fp_equal(fps[i], fps[j])
+    return {'names': names, 'steps': steps, 'same': same}
 
 
 # ---------------------------------------------------------------------------------------------------------------------
@@ -1402,6 +1749,10 @@ def _to_coq(case, obs):
     nm = Names()
     p = g_pt(case['tree'], nm)
     gv = lambda vals: glist(lambda kv: '(%s, %s)' % (nm(kv[0]), gQ(F(kv[1]))), sorted(vals.items()))
+    if 'steps' in obs:
+        return '(CHist %s %s %s %s %s)' % (p, glist(lambda c: nm('ch:' + c), drop_list(case)), glist(nm, obs['names']),
+                                           glist(lambda st: '(%s, %s)' % (gv(st['values']), g_out(st['out'])), obs['steps']),
+                                           gbool(obs.get('same', True)))
     return '(CCase %s %s %s %s %s %s %s %s)' % (p, glist(lambda c: nm('ch:' + c), drop_list(case)), glist(nm, obs['names']),
                                               gv(obs['values']),
                                               g_out(obs['out']), gv(obs['values2']), g_out(obs['out2']),
@@ -1438,9 +1789,14 @@ def histogram_keys(case, obs):
     d = drop_list(case)
     keys.append('drop:' + ('none' if not d else 'all' if len(d) == 2 else 'partial'))
     keys.append('nodes:%d' % min(len(ns), 12))
+    if any(n.get('oid') is not None for n in ns):
+        keys.append('aliased_object')
     if 'out' in obs:
         keys.append('out:' + obs['out'].split(':')[0])
         keys.append('out2:' + obs['out2'].split(':')[0])
+    elif 'steps' in obs:
+        keys.append('history:' + '>'.join(st['out'].split(':')[0] for st in obs['steps']))
+        keys.append('history_vt:' + '/'.join(sorted({st.get('vt', 'int') for st in case['hist']})))
     else:
         keys.append('out:crash')
     return keys
@@ -1451,6 +1807,8 @@ _PENDING = {}        # candidates seen by to_coq whose guard has not been evalua
 
 
 def _candidate(obs):
+    if 'steps' in obs:
+        return any(set(obs['names']) - set(st['values']) and st['out'] in ('program', 'none') for st in obs['steps'])
     return 'names' in obs and bool(set(obs['names']) - set(obs['values'])) and obs['out'] in ('program', 'none')
 
 
@@ -1476,10 +1834,7 @@ def classify(case, obs):
     """known finding: the implementation returned (program / None) although a declared name is not supplied, and the
     input lies in the class the theorems exclude: the Coq guard guard_C03_function_zero is false (a reached function
     atom whose expression cannot be evaluated but whose symbolic residual is closed)"""
-    if 'names' not in obs:
-        return None
-    missing = set(obs['names']) - set(obs['values'])
-    if not missing or obs['out'] not in ('program', 'none'):
+    if 'names' not in obs or not _candidate(obs):
         return None
     try:
         if not guard_holds(case, obs):
@@ -1502,7 +1857,7 @@ def exact_order_report(seed=0, tier='quick'):
                                  shard=SHARD)
     finally:
         vlib.rmtree(wd)
-    incomplete = sum(1 for o in obs if 'names' in o and set(o['names']) - set(o['values']))
+    incomplete = sum(1 for o in obs if 'values' in o and set(o['names']) - set(o['values']))
     return {'cases': len(cases), 'incomplete': incomplete, 'disagree': [cases[i] for i in res['check_corr_exact']]}
 
 
